@@ -28,6 +28,7 @@ import (
 	"mime"
 	"mime/multipart"
 	"net/http"
+	"net/http/httputil"
 	"net/url"
 	"strings"
 	"sync"
@@ -768,9 +769,14 @@ func postData(req *http.Request, logBody bool) (*PostData, error) {
 		return nil, err
 	}
 
-	br, err := mv.BodyReader()
+	rc, err := mv.BodyReader()
 	if err != nil {
 		return nil, err
+	}
+	// The post data is the body, not its transfer coding; content codings are left as they are.
+	var br io.Reader = rc
+	if te := req.TransferEncoding; len(te) > 0 && te[len(te)-1] == "chunked" {
+		br = httputil.NewChunkedReader(rc)
 	}
 
 	switch mt {
